@@ -82,3 +82,20 @@ Example rw_cow_fault_run :
   let s := st_of (map_page PG 0x130 0x203 boot) in
   obs (run s ADDR) = Some (digest s, Some [GNum ADDR; GNum REGS; err_arg (Some "errUnrecoverableFault"%string)], (3, 0x130203)).
 Proof. vm_compute. reflexivity. Qed.
+
+(** ---- the general corollary: the boot state satisfies the invariant; a fault on an unmapped page is in its domain ---- *)
+From FF Require Vmm.PtInit Vmm.PtMap Vmm.PtFault Vmm.PtTheorems.
+Example C06_fault_handler_is_translation_inv_nonvacuous :
+  PtMap.Inv boot 0x100 0x100 (PtInit.own_root 0x100) /\ ADDR < two64 /\ T.mem_w64 boot /\
+  hw_idx (page_from_addr ADDR) 0 <> 511 /\ ~ PtTheorems.same_page (page_from_addr ADDR) temp_page /\
+  (forall e, PtFault.cow_pre boot 0x100 (page_from_addr ADDR) = Some e ->
+     backed boot (hw_frame e) = true /\ PtInit.own_root 0x100 (hw_frame e) = None /\ ~ In (hw_frame e) (orc boot)).
+Proof.
+  split.
+  { apply PtInit.Inv_init; [reflexivity | vm_compute; discriminate | |].
+    - vm_compute. repeat constructor; cbn; intuition discriminate.
+    - intros f Hin Hz. cbn in Hin. repeat (destruct Hin as [<-|Hin]; [vm_compute; split; reflexivity|]). destruct Hin. }
+  split; [reflexivity|]. split; [apply T.init_state_w64; reflexivity|].
+  split; [vm_compute; discriminate|]. split; [vm_compute; discriminate|].
+  intros e He. vm_compute in He. discriminate.
+Qed.
